@@ -494,6 +494,88 @@ example (d : Disc) :
       [(produce centredHeap 0 (correlationFastPath false)).2] :=
   (fresh_producer_sep d centredHeap 0 centred_closed _ (identity_fast_path_fresh_iff false)).2
 
+/-! ### helpers that write normalised entries back into the caller's container (round 7) -/
+
+/-- the caller's per-fold `noise` list: two 2 × 2 precision matrices as `np.linalg.inv` hands them
+    out — entry 0 symmetric only up to rounding (`0.30000000000000004` above, `0.3` below the
+    diagonal), entry 1 exactly symmetric.  The container is the argument object; its entries are
+    its array attributes. -/
+def noiseListHeap : Heap :=
+  { cells := fun l => match l with
+      | 0 => .obj [("noise_0", .arr [2, 2] [1, 2, 3, 4]), ("noise_1", .arr [2, 2] [5, 6, 7, 8])]
+      | 1 => .val "2.0" | 2 => .val "0.30000000000000004" | 3 => .val "0.3" | 4 => .val "2.0"
+      | 5 => .val "1.5" | 6 => .val "0.25" | 7 => .val "0.25" | 8 => .val "1.5"
+      | _ => .free,
+    next := 9 }
+
+/-- the crossnobis RDM object built from the per-fold noise (always newly built) -/
+def crossnobisResult : List (String × FieldSpec) :=
+  [("dissimilarities", .freshArr [1, 1] ["2.0"]),
+   ("descriptors", .freshDict [("noise", ["deepcopy"])]),
+   ("rdm_descriptors", .freshDict [("index", ["0"])]),
+   ("pattern_descriptors", .freshDict [("conds", ["c0", "c1"]), ("index", ["0", "1"])])]
+
+/-- `calc_rdm_crossnobis` whose checking helper `_check_noise` does `noise[idx] = _check_noise(noise_i)`
+    on the caller's list.  As coded the helper returns the entry itself (`storeBack = none`: a
+    self-assignment, nothing is written).  With a helper that returns a *normalised copy*
+    (`(noise + noise.T) / 2`, seeded change C12-11) the assignment binds a new array into the
+    caller's container: `some k` = entry `k` is replaced by its symmetric part. -/
+def crossnobisCheckNoise (storeBack : Option Nat) : Producer :=
+  { srcWrites := match storeBack with
+      | none => []
+      | some 0 => [.newArr "noise_0" [2, 2] ["2.0", "0.30000000000000002", "0.30000000000000002", "2.0"]]
+      | some _ => [.newArr "noise_1" [2, 2] ["1.5", "0.25", "0.25", "1.5"]],
+    fields := crossnobisResult }
+
+/-- **write-back into the caller's container**: in all three programs the returned RDM object is
+    freshly allocated, separated from the argument and has the same content — neither the result nor
+    any later history tells them apart.  Storing the symmetric part of a *not exactly symmetric*
+    entry changes the argument's content (by one unit in the last place); storing the symmetric part
+    of an *exactly symmetric* entry leaves the content of the argument identical — a value
+    fingerprint, however exact, sees nothing — but the entry is **another array** (its cells are
+    new locations): `container[1] is original_1` fails.  As coded (`none`) the producer is fresh,
+    content and identity of every entry are unchanged.  Hence the generator needs per-fold containers
+    with entries that are not exactly symmetric *and* the fingerprint must include the identity of
+    the entries. -/
+theorem container_writeback_counterexample (d : Disc) :
+    (let ha := produce noiseListHeap 0 (crossnobisCheckNoise (some 0))
+     (crossnobisCheckNoise (some 0)).fresh = false ∧ sepB d ha.1 [0] [ha.2] = true ∧
+     content ha.1 0 ≠ content noiseListHeap 0) ∧
+    (let hs := produce noiseListHeap 0 (crossnobisCheckNoise (some 1))
+     (crossnobisCheckNoise (some 1)).fresh = false ∧ sepB d hs.1 [0] [hs.2] = true ∧
+     content hs.1 0 = content noiseListHeap 0 ∧
+     lookupField (fieldsOf (hs.1.cells 0)) "noise_1" ≠ lookupField (fieldsOf (noiseListHeap.cells 0)) "noise_1") ∧
+    (let hk := produce noiseListHeap 0 (crossnobisCheckNoise none)
+     (crossnobisCheckNoise none).fresh = true ∧ sepB d hk.1 [0] [hk.2] = true ∧
+     content hk.1 0 = content noiseListHeap 0 ∧
+     fieldsOf (hk.1.cells 0) = fieldsOf (noiseListHeap.cells 0) ∧
+     content hk.1 hk.2 = content (produce noiseListHeap 0 (crossnobisCheckNoise (some 0))).1
+                           (produce noiseListHeap 0 (crossnobisCheckNoise (some 0))).2 ∧
+     content hk.1 hk.2 = content (produce noiseListHeap 0 (crossnobisCheckNoise (some 1))).1
+                           (produce noiseListHeap 0 (crossnobisCheckNoise (some 1))).2) := by
+  cases d <;> decide +kernel
+
+/-- the helper is `fresh` exactly when it stores nothing back, for every entry it could store -/
+theorem container_writeback_fresh_iff (storeBack : Option Nat) :
+    (crossnobisCheckNoise storeBack).fresh = storeBack.isNone := by
+  rcases storeBack with _ | k
+  · decide
+  · cases k <;> simp [crossnobisCheckNoise, Producer.fresh]
+
+theorem noise_list_closed : Closed noiseListHeap [0] := by
+  intro l hl
+  have : l ∈ [0, 1, 2, 3, 4, 5, 6, 7, 8] := by
+    simpa [reachSide, reach, cellReach, fieldsOf, noiseListHeap, fieldLocs] using hl
+  simp only [List.mem_cons, List.mem_nil_iff, or_false] at this
+  show l < 9
+  omega
+
+/-- non-vacuity: the general theorem applies to the program as coded, on the noise container -/
+example (d : Disc) :
+    Inv d (produce noiseListHeap 0 (crossnobisCheckNoise none)).1 [0]
+      [(produce noiseListHeap 0 (crossnobisCheckNoise none)).2] :=
+  (fresh_producer_sep d noiseListHeap 0 noise_list_closed _ (container_writeback_fresh_iff none)).2
+
 /-! ### derived-object constructors of `RDMs` (heap programs `ctorProducer`) -/
 
 /-- the multi-source form of `fresh_producer_sep`: a fresh producer leaves the labelled content
